@@ -16,7 +16,7 @@ TLA = os.path.join(DIR, "ExtractMC.tla")
 # (cfg tag, what it enumerates, replay policy quick, replay policy thorough)
 QUICK = [
     ("q3", "<=3 nodes, <=1 nested body, single outputs, every cut", "rotate"),
-    ("q2", "<=2 nodes, one two-output node, omitted (None) inputs, Graph and Function kinds, every cut", "rotate"),
+    ("q2", "<=2 nodes, leaf kinds in/init and in/both (a graph input that is also an initializer), one two-output node, omitted (None) inputs, Graph and Function kinds, every cut", "rotate"),
     ("d2", "3 nodes, 3 graphs: depth-2 nesting and two bodies on one node, every cut", "rotate"),
     ("d3", "5 nodes, 4 graphs with a body nested 3 deep (one shape per renumbering), <=1 input per node, cuts with one output", "rotate"),
 ]
